@@ -45,3 +45,57 @@ def check_txn(prop_id, tier, seed):
     wd = os.path.join(vc.RUN, "work_%s" % prop_id)
     verdict, events, _ = ec.run_parts(prop_id, parts, wd)
     return ec.finish(prop_id, tier, seed, t0, verdict, events, stats)
+
+
+# ---------------------------------------------------------------- query semantics families (MC_Sem)
+SEM_BOUNDS = {
+    "quick":    {"Max1": 2, "Max2": 1, "IntVals": "{0, 1}", "StrVals": '{"a", "A"}'},
+    "thorough": {"Max1": 3, "Max2": 2, "IntVals": "{0, 1}", "StrVals": '{"a", "A"}'},
+}
+
+
+def merge_queries(scen, prop_id, fam):
+    """Histories emitted by MC_Sem are <prefix of DDL/inserts> + one query; merge the queries that share a
+    prefix (= one database state) into one scenario so the database is built once."""
+    groups = {}
+    order = []
+    for sc in scen:
+        steps = sc["steps"]
+        k = json.dumps(steps[:-1], sort_keys=True)
+        if k not in groups:
+            groups[k] = {"id": "%s-%s-%05d" % (prop_id, fam, len(order)), "steps": list(steps[:-1])}
+            order.append(k)
+        groups[k]["steps"].append(steps[-1])
+    return [groups[k] for k in order]
+
+
+def sem_parts(prop_id, tier, families, configs=None, bounds=None, sample=None, seed=1):
+    import random
+    parts, agg = [], {"states_generated": 0, "distinct_states": 0, "mc_ok": True, "exhaustive": True}
+    for fam in families:
+        consts = dict(bounds or SEM_BOUNDS[tier])
+        consts["Family"] = '"%s"' % fam
+        scen, stats = vc.gen_scenarios(prop_id, "MC_Sem", "MC_Sem.cfg", ec.ENGINE_DEPS, consts=consts, workers=8)
+        agg["states_generated"] += stats["states_generated"]
+        agg["distinct_states"] += stats["distinct_states"]
+        agg["mc_ok"] = agg["mc_ok"] and stats["mc_ok"]
+        merged = merge_queries(scen, prop_id, fam)
+        if sample and len(merged) > sample:
+            rnd = random.Random(seed * 1000003 + hash(fam) % 1000)
+            merged = rnd.sample(merged, sample)
+            agg["exhaustive"] = False
+        parts.append({"name": fam, "scenarios": merged, "configs": configs or [{"name": "default", "args": []}]})
+    return parts, agg
+
+
+def sem_check(prop_id, tier, seed, families, configs=None, sample=None):
+    t0 = time.time()
+    parts, stats = sem_parts(prop_id, tier, families, configs=configs, sample=sample, seed=seed)
+    wd = os.path.join(vc.RUN, "work_%s" % prop_id)
+    verdict, events, _ = ec.run_parts(prop_id, parts, wd)
+    return ec.finish(prop_id, tier, seed, t0, verdict, events, stats)
+
+
+@prop("C01")
+def check_c01(prop_id, tier, seed):
+    return sem_check(prop_id, tier, seed, ["F1", "F1L", "F2", "F3", "F4", "F4S", "F5", "F5S", "F6", "F7"])
